@@ -32,7 +32,34 @@ RULE = ("uniform grids of 3..1000 points (steps 0.001..0.1), smooth / noisy / "
         "non-trivial when the operation changes the table in the judged way "
         "(e.g. ibi: at least one updated and one continued point; integrate: "
         "integral > 10x the bound); distinct = sha1 of the input files + "
-        "arguments. Every 5th eligible case goes through csg_call.")
+        "arguments. Added: compare (table compare = --die --op = [--error]), "
+        "combine_nan, pipeline_* (linearop->combine->scale, linearop twice, "
+        "scale twice, extrapolate->shift, smooth n times, integrate->linearop "
+        "-1; the closed forms are composed), flag columns mixing i/o/u in all "
+        "rows incl. first/last, nan entries in o/u rows, tables without flag "
+        "column (sloppy), very long tables (5000..20000 rows, 1.5 % of the "
+        "eligible cases); half of all cases get another spelling of the same "
+        "input (comment lines # and @, blank lines, tabs/leading/trailing "
+        "blanks, scientific notation). Every 4th eligible case (pipelines: "
+        "every stage) goes through csg_call; csg_call --show and --help are "
+        "checked for each covered key pair.")
+
+OPTIONS_NOT_EXERCISED = [
+    "csg_call: --options FILE (needs a real csg_property), --log, --ia-type, "
+    "--ia-name, --debug, --nocolor (only via CSGNOCOLOR), --cat, -l/--list",
+    "table_combine.pl: --error together with ops other than '=' (it has no "
+    "meaning there), --die together with ops other than '='",
+    "table_extrapolate.pl: --avgpoints larger than the valid region (reads "
+    "outside the table)",
+    "dist_boltzmann_invert.pl: --type with an unsupported name (documented die)",
+    "table_integrate.pl: --with-errors error-propagation formula (values only "
+    "required to be non-negative numbers)",
+    "bundled short options (-fo style pre-parser shared by the scripts): only "
+    "-h exists as a short option",
+    "readin_table_err/saveto_table_err only through table_linearop.pl and "
+    "table_integrate.pl --with-errors; readin_data (CsgFunctions.pm) is not "
+    "used by any covered script",
+]
 
 WARN_RE = re.compile(r" at (\S+) line \d+")
 
@@ -88,6 +115,15 @@ def run_case(case, d, env, resample):
         with open(os.path.join(d, name), "w") as f:
             f.write(text)
     run = Run()
+    run.proc = []
+    if case.env:
+        env = dict(env)
+        env.update(case.env)
+
+    def command(script, args, keys, via):
+        if via and keys:
+            return ["bash", CSG_CALL] + list(case.csg_call_opts) + list(keys) + args
+        return ["perl", "-w", os.path.join(SCRIPTS, script)] + args
     perl = ["perl", "-w", os.path.join(SCRIPTS, case.script)]
     if case.family == "pair":
         pr = case.pair
@@ -110,9 +146,24 @@ def run_case(case, d, env, resample):
             run.proc.append((c2, r2))
         else:
             run.rc2 = -1
+    elif case.stages:
+        # a pipeline: every stage reads what the previous one wrote; each
+        # stage goes through csg_call when the case does
+        for script, args, keys in case.stages:
+            cmd = command(script, args, keys, case.via_csg_call)
+            r1 = run_retry(cmd, env, d)
+            run.cmds.append(cmd)
+            run.proc.append((cmd, r1))
+            run.out += r1.out
+            run.err += r1.err
+            if r1.rc != 0 or r1.timed_out:
+                run.rc = r1.rc if r1.rc != 0 else -9
+                break
     else:
         if case.via_csg_call:
-            cmd = ["bash", CSG_CALL] + list(case.csg_call_keys) + case.args
+            args = getattr(case, "csg_call_args", None)
+            cmd = ["bash", CSG_CALL] + list(case.csg_call_opts) + \
+                list(case.csg_call_keys) + (args if args is not None else case.args)
         else:
             cmd = perl + case.args
         r1 = run_retry(cmd, env, d)
@@ -127,6 +178,48 @@ def run_case(case, d, env, resample):
     return run
 
 
+def dispatch_and_help(chk, env, work):
+    """(b) every key pair the families use resolves, through the real csg_call
+    and csg_table, to the script the manual names; (c) --help / -h of every
+    script, directly and through csg_call, prints a usage text and exits 0"""
+    jobs = []
+    for keys, script in sorted(orc.DISPATCH.items()):
+        jobs.append(("show", keys, script,
+                     ["bash", CSG_CALL, "--show"] + list(keys)))
+        jobs.append(("help_via_csg_call", keys, script,
+                     ["bash", CSG_CALL] + list(keys) + ["--help"]))
+    for sc in orc.HELP_SCRIPTS:
+        for opt in ("--help",) + (("-h",) if sc not in (
+                "update_ibi_pot.pl", "table_smooth.pl") else ()):
+            jobs.append(("help", None, sc,
+                         ["perl", "-w", os.path.join(SCRIPTS, sc), opt]))
+    results = vf.run_parallel(
+        [lambda c=j[3]: run_retry(c, env, work, 120) for j in jobs])
+    for (kind, keys, script, cmd), r in zip(jobs, results):
+        wit = {"command": " ".join(cmd), "rc": r.rc, "stdout": r.out[-600:],
+               "stderr": r.err[-600:]}
+        if r.timed_out:
+            chk.inconclusive.append("watchdog: " + " ".join(cmd))
+            continue
+        if kind == "show":
+            chk.count("dispatch_show", 1, nontrivial=1)
+            got = r.out.strip().splitlines()[-1].strip() if r.out.strip() else ""
+            exp = os.path.join(SCRIPTS, script.split()[0]) + script[len(script.split()[0]):]
+            if r.rc != 0 or got != exp:
+                wit["expected"] = exp
+                wit["got"] = got
+                chk.violation("dispatch/key-pair-resolves-to-other-script", wit,
+                              "csg_call --show %s %s does not name the script "
+                              "the manual gives for this key pair" % keys)
+        else:
+            chk.count("help_text", 1, nontrivial=1)
+            text = r.out + r.err
+            if r.rc != 0 or "Usage" not in text and "usage" not in text:
+                chk.violation("help/no-usage-text", wit, "the script's help "
+                              "option does not print a usage text with exit 0")
+    chk.extra["dispatch_pairs_checked"] = [" ".join(k) for k in sorted(orc.DISPATCH)]
+
+
 def run(chk):
     shards = 16
     ncases = vf.tier_n(chk.tier, 640, 16000)
@@ -137,17 +230,32 @@ def run(chk):
     chk.rule = RULE
     chk.sanitizer = {"flavour": "asan (csg_resample only)", "reports": 0}
     sched = orc.schedule()
+    variant_counts = {}
+    dispatch_and_help(chk, env, work)
 
     def shard(s):
         results = []
         for idx in range(s, ncases, shards):
             rng = random.Random("%d/%d" % (chk.seed, idx))
             name, gen = sched[idx % len(sched)]
-            case = gen(rng)
+            try:
+                case = gen(rng)
+                orc.vary_inputs(rng, case, variant_counts)
+            except Exception:
+                import traceback
+                results.append((idx, None, None, None,
+                                "generator error in %s #%d: %s" % (
+                                    name, idx, traceback.format_exc()[-500:])))
+                continue
             # a share of the eligible cases goes through the csg_call dispatcher
-            case.via_csg_call = bool(case.csg_call_keys) and \
-                (idx // len(sched)) % 5 == 4 and "*" not in case.args
-            # ('*' is glob-expanded by csg_call - its help offers 'x' for that)
+            # ('*' is glob-expanded by csg_call - its help offers 'x' for that;
+            # a table compare that must die takes csg_call's die path: the
+            # exit status is all that is judged there)
+            stage_keys = [k for _, _, k in case.stages] if case.stages else []
+            eligible = bool(case.csg_call_keys) or (stage_keys and all(stage_keys))
+            case.via_csg_call = bool(eligible) and \
+                (idx // len(sched)) % 4 == 3 and "*" not in case.args and \
+                not any("*" in a for st in (case.stages or []) for a in st[1])
             d = os.path.join(work, "c%d" % idx)
             try:
                 r = run_case(case, d, env, resample)
@@ -202,15 +310,30 @@ def run(chk):
             fam = case.family
             if fam == "pair":
                 fam = "pair_" + case.pair["order"]
+            if fam == "pipeline":
+                fam = "pipeline_" + case.info["kind"]
             chk.count(fam, 1, nontrivial=nt)
-            scripts[case.script] = scripts.get(case.script, 0) + 1
+            stage_list = case.stages or [(case.script, case.args,
+                                          case.csg_call_keys)]
+            for sc, _a, keys in stage_list:
+                scripts[sc] = scripts.get(sc, 0) + 1
+                if case.via_csg_call and keys:
+                    k = "csg_call " + " ".join(keys)
+                    scripts[k] = scripts.get(k, 0) + 1
             if fam.startswith("pair"):
                 scripts["csg_resample --derivative"] = \
                     scripts.get("csg_resample --derivative", 0) + 1
             if case.via_csg_call:
                 via += 1
-                k = "csg_call " + " ".join(case.csg_call_keys)
-                scripts[k] = scripts.get(k, 0) + 1
+            if case.env:
+                chk.counters["sloppy_tables_without_flag_column"] = \
+                    chk.counters.get("sloppy_tables_without_flag_column", 0) + 1
+            if case.info.get("with_nan_entries") or case.info.get("nan_flanks"):
+                chk.counters["cases_with_nan_entries"] = \
+                    chk.counters.get("cases_with_nan_entries", 0) + 1
+            if case.info.get("n", 0) >= 5000:
+                chk.counters["very_long_tables"] = \
+                    chk.counters.get("very_long_tables", 0) + 1
             for k, n in v.counters.items():
                 chk.counters[k] = chk.counters.get(k, 0) + n
             for k, m in v.maxes.items():
@@ -235,6 +358,8 @@ def run(chk):
                 s["command"] = " ".join(r.cmds[0])
                 chk.sample(s)
     chk.counters.update(maxes)
+    chk.counters.update(variant_counts)
+    chk.extra["options_not_exercised"] = OPTIONS_NOT_EXERCISED
     chk.extra["scripts_covered"] = scripts
     chk.extra["cases_through_csg_call"] = via
     chk.extra["perl_warning_samples"] = warn_samples
@@ -276,6 +401,7 @@ def replay(path):
     rng = random.Random("%d/%d" % (seed, idx))
     name, gen = sched[idx % len(sched)]
     case = gen(rng)
+    orc.vary_inputs(rng, case, {})
     case.via_csg_call = any("csg_call" in c for c in wit.get("commands", []))
     r = run_case(case, os.path.join(work, "c"), env, vf.exe("asan", "csg_resample"))
     v = case.judge(case, r)
